@@ -563,7 +563,8 @@ theorem step_jalr_pair {H : Hooks} {constants L : Dict} {p : Int} {line line' : 
     (hbody : immBody H constants (.instr line (.i "jalr" rd rs (.lo (.offset ref)) true)) p L = .ok ([it'], 0))
     (hfin : Finish H it' (.blob line' bs)) :
     ∃ w r1 r2 d, bs = leBytes 4 w ∧ decode32 w = some (.jalr r1 r2 (relocateLo (d - (p - 4)))) ∧
-      lookupRegister rd = some r1 ∧ lookupRegister rs = some r2 ∧ chainGet constants L ref = some d := by
+      lookupRegister rd = some r1 ∧ lookupRegister rs = some r2 ∧ chainGet constants L ref = some d ∧
+      (d - (p - 4)) % 2 = 0 := by
   obtain ⟨v, hv, rfl⟩ := C08.instr_item_value H constants L line _ (.lo (.offset ref)) p it' rfl hbody
   simp only [Instr.isAuipcJump, if_true] at hv
   obtain ⟨x, hx, rfl⟩ := C08.lo_value H _ line _ (p - 4) v hv
@@ -588,13 +589,25 @@ theorem step_jalr_pair {H : Hooks} {constants L : Dict} {p : Int} {line line' : 
       simp only [intent32, hcl, intentOf] at hdec
       have hz := finish_of_blob hfin (by rw [h1, hout])
       simp only [Item.blob.injEq] at hz
-      refine ⟨w, r1, r2, d, ?_, hdec, rfl, rfl, hd⟩
+      -- the encoder accepts a jalr immediate only if it is even (reference: "12-bit MO2")
+      have hev : relocateLo (d - (p - 4)) % 2 = 0 := by
+        simp only [legal32, hcl, legalOf, multOf, Bool.and_eq_true, decide_eq_true_eq] at hleg
+        exact hleg.2
+      have hev' : (d - (p - 4)) % 2 = 0 := by
+        rw [BB.Lemmas.relocateLo_eq] at hev
+        omega
+      refine ⟨w, r1, r2, d, ?_, hdec, rfl, rfl, hd, hev'⟩
       simpa [Instr.setImm, Instr.isCompressed] using hz.2
 
 /-- **A far call / tail lands.**  If, after resolve_aligns, items i and i + 1 are the `auipc` and the
     marked `jalr` of one far call / tail to `ref`, the eight output bytes at the auipc's byte offset
     `off` decode to `auipc ra, f` and `jalr r1, lo(r2)` with `off + (f << 12) + lo ≡ value of ref`
-    modulo 2³² — what the machine computes for the jump target when r2 = ra. -/
+    modulo 2³² — what the machine computes for the jump target when r2 = ra; the distance
+    `value of ref - off` is EVEN (the encoder refuses an odd jalr immediate, so bit 0, which jalr clears,
+    is 0 and nothing is lost); and `r2 = ra` whenever the pair names the same register operand
+    (`rsJ = rdA`), which is what `transform_pseudo_instructions` generates for every far `call` (x1) and
+    `tail` (x6).  (For a hand-made item pair with DIFFERENT operands the jalr is relative to another
+    register and nothing about the jump target follows; the statement does not claim it.) -/
 theorem assemble_far_pair_lands (H : Hooks) (compress : Bool) (items : List Item) (r : AsmResult)
     (h : assembleItems H compress items [] [] = .ok r) :
     ∃ lay out, Frame H compress items r lay out ∧
@@ -608,7 +621,9 @@ theorem assemble_far_pair_lands (H : Hooks) (compress : Bool) (items : List Item
           lookupRegister rdA = some ra ∧ lookupRegister rdJ = some r1 ∧ lookupRegister rsJ = some r2 ∧
           chainGet r.constants r.labels ref = some d ∧
           ((((blobBytes (out.take i)).length : Int) + (((f : Int) * 4096) % 4294967296 + lo)) % 4294967296
-            = d % 4294967296) := by
+            = d % 4294967296) ∧
+          (d - ((blobBytes (out.take i)).length : Int)) % 2 = 0 ∧
+          (rsJ = rdA → r2 = ra) := by
   obtain ⟨lay, out, hF⟩ := assemble_land H compress items r h
   have hland := hF.land
   have hbytes := hF.bytes
@@ -619,7 +634,7 @@ theorem assemble_far_pair_lands (H : Hooks) (compress : Bool) (items : List Item
   rw [hA] at hbodyA
   rw [hJ] at hbodyJ
   obtain ⟨wa, ra, d, hbA, hdecA, hrA, hdA⟩ := step_auipc hbodyA hfinA
-  obtain ⟨wj, r1, r2, d', hbJ, hdecJ, hr1, hr2, hdJ⟩ := step_jalr_pair hbodyJ hfinJ
+  obtain ⟨wj, r1, r2, d', hbJ, hdecJ, hr1, hr2, hdJ, hevJ⟩ := step_jalr_pair hbodyJ hfinJ
   rw [hdA] at hdJ
   have hdd : d' = d := (Option.some.inj hdJ).symm
   subst hdd
@@ -640,10 +655,11 @@ theorem assemble_far_pair_lands (H : Hooks) (compress : Bool) (items : List Item
   have e2 : (0 : Int) + (((blobBytes (out.take i)).length + 4 : Nat) : Int) - 4
       = ((blobBytes (out.take i)).length : Int) := by push_cast; omega
   rw [e1] at hdecA
-  rw [hoff] at hdecJ
-  rw [e2] at hdecJ
+  rw [hoff] at hdecJ hevJ
+  rw [e2] at hdecJ hevJ
   refine ⟨wa, wj, ra, r1, r2, (relocateHi (d' - ((blobBytes (out.take i)).length : Int)) % 1048576).toNat,
-    relocateLo (d' - ((blobBytes (out.take i)).length : Int)), d', ?_, ?_, hdecA, hdecJ, hrA, hr1, hr2, hdA, ?_⟩
+    relocateLo (d' - ((blobBytes (out.take i)).length : Int)), d', ?_, ?_, hdecA, hdecJ, hrA, hr1, hr2, hdA, ?_,
+    hevJ, ?_⟩
   · rw [hbytes]; rw [hlA] at hsliceA; rw [hsliceA]; exact hbA
   · rw [hbytes]; rw [hlJ] at hsliceJ; rw [hsliceJ]; exact hbJ
   · have hnn : 0 ≤ relocateHi (d' - ((blobBytes (out.take i)).length : Int)) % 1048576 :=
@@ -653,6 +669,9 @@ theorem assemble_far_pair_lands (H : Hooks) (compress : Bool) (items : List Item
     have hp := C07.pair_rebuilds (d' - ((blobBytes (out.take i)).length : Int))
     rw [hf]
     omega
+  · intro e
+    rw [e, hrA] at hr2
+    exact (Option.some.inj hr2).symm
 
 /-! ### The statements are not vacuous
 
